@@ -25,11 +25,11 @@ var two63 = "9223372036854775808"
 var maxU64 = "18446744073709551615"
 
 var leafSpecs = []leafSpec{
-	{'l', `1`, []SRule{Ru("min", "0"), Ru("min", "1"), Ru("max", "1"), Ru("max", "5.0"), Ru("exclusiveMinimum", "true"), Ru("exclusiveMaximum", "false"),
+	{'l', `1`, []SRule{Ru("min", "0"), Ru("min", "1"), Ru("min", "-0"), Ru("min", "1.0"), Ru("max", "1"), Ru("max", "5.0"), Ru("exclusiveMinimum", "true"), Ru("exclusiveMaximum", "false"),
 		Ru("type", `"integer"`), Ru("const", "true"), Ru("const", "false"), Ru("nullable", "true"), Ru("nullable", "false"),
 		Ru("enum", `[1, 2]`), Ru("enum", `@e`), Ru("or", `["integer", "string"]`), Ru("or", `[{type: "integer", min: 0}, {type: "string"}]`), Ru("or", `[{type: "enum", enum: [1, "x"]}, {type: "boolean"}]`), Ru("or", `["uuid", "integer"]`), Ru("or", `["integer"]`), Ru("type", `""`), Ru("or", `["", "integer"]`), Ru("or", `[{type: ""}, {type: "integer"}]`), Ru("enum", `""`),
 		Ru("type", `"any"`), Ru("type", `"@a"`), Ru("type", `"mixed"`), Ru("type", `"enum"`)}},
-	{'l', `1.5`, []SRule{Ru("precision", "1"), Ru("precision", "2"), Ru("precision", two63), Ru("min", "0.5"), Ru("max", "1.50"), Ru("type", `"float"`), Ru("type", `"decimal"`), Ru("nullable", "true"), Ru("const", "true"), Ru("or", `["float", "email"]`)}},
+	{'l', `1.5`, []SRule{Ru("precision", "1"), Ru("precision", "2"), Ru("precision", two63), Ru("min", "0.5"), Ru("min", "0.50"), Ru("max", "1.50"), Ru("type", `"float"`), Ru("type", `"decimal"`), Ru("nullable", "true"), Ru("const", "true"), Ru("or", `["float", "email"]`)}},
 	{'l', `0.123456`, []SRule{Ru("precision", "6"), Ru("precision", "7"), Ru("precision", "10"), Ru("precision", "16"), Ru("min", "0"), Ru("nullable", "true")}},
 	{'l', `-12.0000001`, []SRule{Ru("precision", "7"), Ru("precision", "9"), Ru("max", "0")}},
 	{'l', `"ab"`, []SRule{Ru("minLength", "0"), Ru("minLength", "2"), Ru("maxLength", "2"), Ru("maxLength", big19), Ru("maxLength", big20), Ru("maxLength", two63), Ru("maxLength", maxU64), Ru("regex", `"^a"`), Ru("regex", `"a\\.b|ab"`),
